@@ -109,8 +109,28 @@ func genVLists(r *vh.Rand) []string {
 	return u
 }
 
+// genCsvOpts: the options of a file/csv source: delimiter among "," ";" tab blank "|" (or not written),
+// field names from the `fields` option or from the first line of the file, ignore_first_line.
+// A third of the tables keep the plain form (fields, comma, no first line to ignore).
+// Not generated: no `fields` option together with ignore_first_line: true (the documentation says the
+// fields are then named by ordinal numbers, the code names them after the ignored line; see design/C15.md).
+func genCsvOpts(r *vh.Rand) string {
+	if r.Chance(1, 3) {
+		return ""
+	}
+	d := r.Pick([]string{"2c", "3b", "09", "09", "20", "20", "7c", "--"})
+	switch r.Intn(3) {
+	case 0:
+		return "~" + d + "fn"
+	case 1:
+		return "~" + d + "fi"
+	default:
+		return "~" + d + "hn"
+	}
+}
+
 func genSpec(r *vh.Rand, o genOpts) (tables, reqs, scens string, info genInfo) {
-	tables = fmt.Sprintf("users=%d,items=%d", r.Range(1, 4), r.Range(1, 3))
+	tables = fmt.Sprintf("users=%d%s,items=%d%s", r.Range(1, 4), genCsvOpts(r), r.Range(1, 3), genCsvOpts(r))
 	// list variables of `variables` sources: the same list name under several sources (and the
 	// name of a csv table)
 	vlists := genVLists(r)
@@ -327,7 +347,7 @@ func genScript(r *vh.Rand, n int) string {
 	var parts []string
 	for k := 0; k < n; k++ {
 		if r.Chance(1, 7) {
-			parts = append(parts, fmt.Sprintf("%d:%s", k, r.Pick([]string{"s500", "s404", "s201", "g", "t", "t", "n", "m", "h"})))
+			parts = append(parts, fmt.Sprintf("%d:%s", k, r.Pick([]string{"s500", "s404", "s201", "g", "t", "t", "n", "m", "h", "r302", "r301", "r303", "r307", "r308"})))
 		}
 	}
 	if len(parts) == 0 {
@@ -337,7 +357,7 @@ func genScript(r *vh.Rand, n int) string {
 }
 
 func genInst(r *vh.Rand) string {
-	tables := fmt.Sprintf("users=%d,items=%d", r.Range(1, 5), r.Range(1, 3))
+	tables := fmt.Sprintf("users=%d%s,items=%d%s", r.Range(1, 5), genCsvOpts(r), r.Range(1, 3), genCsvOpts(r))
 	vlists := genVLists(r)
 	for _, v := range vlists {
 		tables += fmt.Sprintf(",%s=%d", v, r.Range(1, 5))
@@ -433,7 +453,7 @@ func gen(r *vh.Rand, tier string) []string {
 		if r.Chance(2, 3) {
 			script = genScript(r, 40)
 		}
-		out = append(out, fmt.Sprintf("shot %d %s %s %s %s", n, script, t, rq, sc))
+		out = append(out, fmt.Sprintf("shot %d %s %s %s %s gun:%s", n, script, t, rq, sc, r.Pick([]string{"d", "d", "f"})))
 	}
 	// fault sweep: the same description, one fault of every kind at every arrival position
 	for i := 0; i < 12*mul; i++ {
@@ -446,8 +466,8 @@ func gen(r *vh.Rand, tier string) []string {
 			n = 2
 		}
 		for k := 0; k < 5; k++ {
-			for _, act := range []string{"g", "t", "s500", "n", "h"} {
-				out = append(out, fmt.Sprintf("shot %d %d:%s %s %s %s", n, k, act, t, rq, sc))
+			for _, act := range []string{"g", "t", "s500", "n", "h", r.Pick([]string{"r302", "r301", "r303", "r307", "r308"})} {
+				out = append(out, fmt.Sprintf("shot %d %d:%s %s %s %s gun:d", n, k, act, t, rq, sc))
 			}
 		}
 	}
